@@ -3,7 +3,11 @@
 Tie T: Gen/TimespanGen.v regenerated from the method bodies; Props/C11.v re-proved over it.
 Tie K: exhaustive endpoint-order-type grid, three-way: Python methods / SQLite evaluation of the compound
        representation's column expressions / Coq model (hand + generated) via vm_compute.
-Oracle: set semantics computed on elementary grid cells (independent of model and implementation).
+       Conversion: the binary64 operation sequence of nsec_to_astropy / astropy_to_nsec (Model/TimeConv.v, proved exact
+       for every nanosecond of the range over Flocq's binary64 in Props/C11.v) instantiated with Coq primitive floats and
+       compared BIT FOR BIT (float.hex) with the doubles Python / astropy / numpy produce.
+Oracle: set semantics computed on elementary grid cells (independent of model and implementation); round trip exact,
+       order preserved, nearest nanosecond against exact rational arithmetic for other formats / scales.
 """
 from __future__ import annotations
 
@@ -342,7 +346,7 @@ def _conversion(ctx: Ctx, conv):
     r = ctx.rng
     vals = set(range(0, 20000 if ctx.quick else 300000))
     day = 86400 * 10**9
-    structured = set(range(0, 1000 if ctx.quick else 20000))
+    structured = set(range(0, 1000 if ctx.quick else 10000))
     w = 10 if ctx.quick else 30   # half-width of the bit-exact window around day / half-day boundaries
     for d in r.sample(range(1, mx // day), 40 if ctx.quick else 400):
         b = set(range(d * day - 30, d * day + 30))
@@ -359,7 +363,7 @@ def _conversion(ctx: Ctx, conv):
     structured.update(range(mx - (150 if ctx.quick else 2000), mx + 1))
     rnd = [r.randrange(0, mx) for _ in range(20000 if ctx.quick else 400000)]
     vals.update(rnd)
-    structured.update(rnd[: 1500 if ctx.quick else 60000])
+    structured.update(rnd[: 1500 if ctx.quick else 30000])
     vals = sorted(vals)
     prev_ns, prev_t = None, None
     bad = 0
